@@ -4,11 +4,13 @@ package main
 
 import (
 	"github.com/drand/drand/v2/zzverif/cli"
+	"github.com/drand/drand/v2/zzverif/engsecrecy"
 	"github.com/drand/drand/v2/zzverif/extract"
 )
 
 func main() {
 	cli.Main(map[string]cli.RunFn{
 		"extract": func(out string, _ int64, _ string) error { return extract.Run(cli.Repo, out) },
+		"secrecy": engsecrecy.Run,
 	})
 }
